@@ -161,15 +161,25 @@ def gen_cfg(rng, defined):
             'trafo': [[str(a), str(b)] for a, b in trs], 'min': mn, 'max': mx, 'mode': mode, 'cpp': 2}
 
 
-def gen_tree(rng, depth, nwf, top=True):
+def t_vol(t):
+    """a tree node is [count, has measurements, waveform index | None, children (, count is volatile)]"""
+    return len(t) > 4 and bool(t[4])
+
+
+def gen_tree(rng, depth, nwf, top=True, pvol=0.0):
+    vol = [True] if (pvol and rng.random() < pvol) else []
     if depth == 0:
-        return [rng.choice([1, 1, 1, 2, 3, 4]), False, rng.randrange(nwf), []]
+        return [rng.choice([1, 1, 1, 2, 3, 4]), False, rng.randrange(nwf), []] + vol
     nch = rng.choice([1, 1, 2, 2, 3, 4])
     ch = []
     for _ in range(nch):
         d = depth - 1 if rng.random() < 0.65 else rng.randint(0, depth - 1)
-        ch.append(gen_tree(rng, d, nwf, False))
-    return [rng.choice([1, 1, 1, 2, 3]), rng.random() < 0.12, None, ch]
+        ch.append(gen_tree(rng, d, nwf, False, pvol))
+    return [rng.choice([1, 1, 1, 2, 3]), rng.random() < 0.12, None, ch] + vol
+
+
+def any_vol(t):
+    return t_vol(t) or any(any_vol(c) for c in t[3])
 
 
 def tree_size(t):
@@ -221,12 +231,13 @@ def gen_prog_case(rng, tier, force=None):
     else:
         shape = rng.random()
         depth = 0 if shape < 0.06 else 1 if shape < 0.3 else 2 if shape < 0.7 else 3 if shape < 0.92 else 4
+        pvol = rng.choice([0.2, 0.35, 0.6]) if rng.random() < 0.3 else 0.0     # volatile repetition counts
         for _ in range(20):
-            tree = gen_tree(rng, depth, nwf)
+            tree = gen_tree(rng, depth, nwf, pvol=pvol)
             if tree_size(tree) <= 14 and played_len(tree) <= 120:
                 break
         else:
-            tree = gen_tree(rng, 1, nwf)
+            tree = gen_tree(rng, 1, nwf, pvol=pvol)
     nch = None
     if rng.random() < 0.04:
         nch = rng.choice([[1, 2], [3, 2], [2, 1], [2, 3]])
@@ -290,6 +301,36 @@ def gen_cases(rng, tier, ctx):
         [1, False, None, [[4, False, None, [[1, False, 0, []]]], [1, False, None, [[1, False, 1, []], [1, False, 0, []]]],
                           [1, False, None, [[1, False, 1, []]]]]],
     ]
+    V = True
+    targeted_vol = [
+        # volatile root with current count 1 over leaves (encapsulated although the count is 1)
+        [1, False, None, [[1, False, 0, []], [2, False, 1, []]], V],
+        [1, False, 0, [], V],
+        # merging two tables with count 1 is blocked when one count is volatile
+        [1, False, None, [[1, False, None, [[1, False, 0, []]], V], [1, False, None, [[1, False, 1, []]]]]],
+        [1, False, None, [[1, False, None, [[1, False, 0, []]]], [1, False, None, [[1, False, 1, []]], V]]],
+        # a short table with a volatile count (1 or 3) cannot be unrolled
+        [1, False, None, [[3, False, None, [[1, False, 0, []], [1, False, 1, []]], V], [1, False, None, [[2, False, 0, []], [1, False, 1, []], [1, False, 0, []]]]]],
+        # neighbours with volatile counts > 1 lend one iteration (previous / next)
+        [1, False, None, [[2, False, None, [[1, False, 0, []]], V], [1, False, None, [[1, False, 1, []]]]]],
+        [1, False, None, [[1, False, None, [[1, False, 1, []]]], [3, False, None, [[1, False, 0, []]], V]]],
+        # split_one_child prefers the last child with a FIXED count > 1; falls back to a volatile one
+        [1, False, None, [[1, False, None, [[2, False, 0, []], [3, False, 1, [], V]]], [1, False, None, [[1, False, 1, []], [1, False, 0, []], [1, False, 1, []], [1, False, 0, []]]]]],
+        [1, False, None, [[1, False, None, [[1, False, 0, []], [3, False, 1, [], V]]], [1, False, None, [[1, False, 1, []], [1, False, 0, []], [1, False, 1, []], [1, False, 0, []]]]]],
+        [2, False, None, [[2, False, 0, [], V], [3, False, 1, [], V]]],
+        # a node with measurements over a single child whose count is a volatile 1 cannot be merged (is unrolled)
+        [1, False, None, [[2, True, None, [[1, False, None, [[1, False, 0, []], [1, False, 1, []]], V]]], [1, False, 1, []]]],
+        # merging a volatile parent / child count makes the merged count volatile
+        [1, False, None, [[2, False, None, [[1, False, None, [[1, False, 0, []]]]], V], [1, False, None, [[1, False, None, [[1, False, 1, []]], V]]]]],
+    ]
+    for t in targeted_vol:
+        for mn, mx in [(1, 4), (2, 3), (2, 5), (3, 4), (3, 6), (3, 16), (4, 8)]:
+            if tier == 'quick' and rng.random() < 0.45:
+                continue
+            c = gen_prog_case(rng, tier, {'tree': t, 'build': 'direct', 'cfg': {'min': mn, 'max': mx, 'mode': None}})
+            while len(c['wfs']) < 2:
+                c['wfs'].append(c['wfs'][0])
+            cases.append(c)
     for t in targeted:
         for mn, mx in [(1, 2), (2, 3), (3, 4), (3, 6), (2, 2), (3, 16), (4, 5), (2, 4), (3, 5), (4, 8)]:
             if tier == 'quick' and rng.random() < 0.35:
@@ -317,6 +358,24 @@ def gen_cases(rng, tier, ctx):
                                          'offs': ['0', '0'], 'trafo': [['1', '0'], ['1', '0']], 'min': mn, 'max': mx,
                                          'mode': None, 'cpp': 2}}
                             cases.append(c)
+        # all trees with <= 3 nodes x counts {1,2} x every subset of volatile counts x limits {1,2,3}
+        for nn in range(1, 4):
+            for shape in enum_shapes(nn):
+                for reps in itertools.product([1, 2], repeat=nn):
+                    for vols in itertools.product([False, True], repeat=nn):
+                        if not any(vols):
+                            continue
+                        for mn in (1, 2, 3):
+                            for mx in range(mn, 4):
+                                tree = label_shape(shape, iter(reps), itertools.cycle([0, 1]))
+                                vi = iter(vols)
+
+                                def mark(t):
+                                    out = t[:3] + [None] + ([True] if next(vi) else [])
+                                    out[3] = [mark(c) for c in t[3]]
+                                    return out
+                                cc = dict(c, tree=mark(tree), cfg=dict(c['cfg'], min=mn, max=mx))
+                                cases.append(cc)
         del base
     return cases
 
@@ -345,35 +404,55 @@ def build_template(desc, rate):
     return TablePT(table)
 
 
-def build_direct(tree, wobjs):
+def volatile_count(rep, counter):
+    """a VolatileRepetitionCount whose current value is rep"""
+    from qupulse.program.volatile import VolatileRepetitionCount
+    from qupulse.parameter_scope import DictScope
+    from qupulse.expressions import ExpressionScalar
+    counter[0] += 1
+    name = 'vol%d' % counter[0]
+    return VolatileRepetitionCount(ExpressionScalar(name), DictScope.from_kwargs(volatile={name}, **{name: rep}))
+
+
+def build_direct(tree, wobjs, counter=None):
     from qupulse.program.loop import Loop
-    rep, meas, w, ch = tree
-    kw = {'repetition_count': rep}
+    counter = [0] if counter is None else counter
+    rep, meas, w, ch = tree[:4]
+    kw = {'repetition_count': volatile_count(rep, counter) if t_vol(tree) else rep}
     if meas:
         kw['measurements'] = [('m', 0., 1.)]
     if not ch:
         return Loop(waveform=wobjs[w], **kw)
-    return Loop(children=[build_direct(c, wobjs) for c in ch], **kw)
+    return Loop(children=[build_direct(c, wobjs, counter) for c in ch], **kw)
 
 
-def build_pt(tree, templates, order):
+def build_pt(tree, templates, order, params=None):
+    """params: name -> current value of the volatile repetition parameters (filled here)"""
     from qupulse.pulses import SequencePT, RepetitionPT
-    rep, meas, w, ch = tree
+    params = {} if params is None else params
+    rep, meas, w, ch = tree[:4]
+
+    def repeat(body):
+        if t_vol(tree):
+            name = 'vol%d' % (len(params) + 1)
+            params[name] = rep
+            return RepetitionPT(body, name)
+        return RepetitionPT(body, rep) if rep != 1 else body
     if not ch:
         order.append(w)
-        body = templates[w]
-        return RepetitionPT(body, rep) if rep != 1 else body
-    parts = [build_pt(c, templates, order) for c in ch]
+        return repeat(templates[w])
+    parts = [build_pt(c, templates, order, params) for c in ch]
     kw = {'measurements': [('m', 0, 1)]} if meas else {}
     body = SequencePT(*parts, **kw) if (len(parts) > 1 or meas) else parts[0]
-    return RepetitionPT(body, rep) if rep != 1 else body
+    return repeat(body)
 
 
 def read_tree(loop, order_iter):
     ch = [read_tree(c, order_iter) for c in loop]
+    vol = [True] if loop.volatile_repetition is not None else []
     if ch:
-        return [int(loop.repetition_count), bool(loop._measurements), None, ch]
-    return [int(loop.repetition_count), bool(loop._measurements), next(order_iter), []]
+        return [int(loop.repetition_count), bool(loop._measurements), None, ch] + vol
+    return [int(loop.repetition_count), bool(loop._measurements), next(order_iter), []] + vol
 
 
 def leaves(loop):
@@ -385,7 +464,7 @@ def leaves(loop):
 
 
 def flatten_tree(t):
-    rep, _, w, ch = t
+    rep, _, w, ch = t[:4]
     once = [w] if not ch else [x for c in ch for x in flatten_tree(c)]
     return once * max(rep, 0)
 
@@ -420,8 +499,9 @@ def _run_impl(case):
     templates = [build_template(d, rate) for d in case['wfs']]
     if case['build'] == 'template':
         order = []
-        pt = build_pt(case['tree'], templates, order)
-        prog = pt.create_program()
+        params = {}
+        pt = build_pt(case['tree'], templates, order, params)
+        prog = pt.create_program(parameters=dict(params), volatile=set(params))
         lv = list(leaves(prog))
         if len(lv) != len(order):
             return {'crash': 'harness: template read-back mismatch (%d leaves for %d atoms)' % (len(lv), len(order))}
@@ -472,7 +552,7 @@ def _run_impl(case):
     seqs = [[[int(d.repetition_count), int(d.element_id), int(d.jump_flag), v is None] for d, v in t]
             for t in tp.get_sequencer_tables()]
     adv = [[int(e.repetition_count), int(e.element_number), int(e.jump_flag)] for e in tp.get_advanced_sequencer_table()]
-    if any(e[2] != 0 or not e[3] for t in seqs for e in t) or any(e[2] != 0 for e in adv):
+    if any(e[2] != 0 or not (e[3] or any_vol(tree)) for t in seqs for e in t) or any(e[2] != 0 for e in adv):
         obs['crash'] = 'jump flag / volatile entry in a non-volatile program'
         return obs
     bins = [np.array(s.get_as_binary()) for s in segs]
@@ -539,9 +619,9 @@ def _run_impl(case):
 # Gallina printers
 
 def g_tree(t):
-    rep, meas, w, ch = t
-    return '(Loop %s %s %s %s)' % (gZ(rep), gbool(meas), 'None' if w is None else '(Some %d%%nat)' % w,
-                                   glist(g_tree, ch))
+    rep, meas, w, ch = t[:4]
+    meta = 'plain' if not (meas or t_vol(t)) else '(Build_nmeta %s %s)' % (gbool(meas), gbool(t_vol(t)))
+    return '(Loop %s %s %s %s)' % (gZ(rep), meta, 'None' if w is None else '(Some %d%%nat)' % w, glist(g_tree, ch))
 
 
 def g_chan(c):
@@ -614,6 +694,10 @@ def histogram_keys(case, obs):
         keys.append('err:' + obs['err'])
     else:
         keys.append('crash')
+    if any_vol(case['tree']):
+        keys.append('volatile:input')
+    if 'tree' in obs and any_vol(obs['tree']):
+        keys.append('volatile:compiled')
     if case.get('ntuple'):
         keys.append('malformed:tuple_length')
     if any(F(d['len']).denominator != 1 or int(F(d['len'])) % 16 or F(d['len']) < 192 for d in case['wfs']):
